@@ -23,6 +23,8 @@ type (
 type Mutex struct {
 	mu   sync.Mutex
 	held int32
+	// lastOwner is the id+1 of the task that locked the mutex last
+	lastOwner int32
 }
 
 type mutexWaiter Mutex
@@ -43,6 +45,7 @@ func (m *Mutex) Lock() {
 	}
 	t.Park("sync.Mutex.Lock", (*mutexWaiter)(m))
 	m.held = 1
+	m.lastOwner = int32(t.ID) + 1
 	m.mu.Lock()
 }
 
@@ -56,7 +59,20 @@ func (m *Mutex) TryLock() bool {
 	if m.held != 0 {
 		return false
 	}
+	// Buggify: a critical section without a scheduling point inside is
+	// atomic under this scheduler, so a TryLock would never meet a held
+	// lock although in a real execution another goroutine may be inside its
+	// (short) critical section at this very moment. When another task that
+	// is still running used this mutex last, one TryLock in eight fails as
+	// if that had happened.
+	if m.lastOwner != 0 && m.lastOwner != int32(t.ID)+1 && simrt.Alive(int(m.lastOwner)-1) {
+		if v, ok := simrt.DrawS(8); ok && v == 7 {
+			simrt.Hit(simrt.ProbeMutexContended())
+			return false
+		}
+	}
 	m.held = 1
+	m.lastOwner = int32(t.ID) + 1
 	m.mu.Lock()
 	return true
 }
